@@ -31,7 +31,9 @@ for p in props:
             "engine": "lean-proof+correspondence",
             "level_claimed": {"category": "proof", "text": c["text"], "design_ref": f"DESIGN.md §6 {pid}, §11.3 {pid}"},
             "level_note": c["note"],
-            "technique": c.get("technique", "Lean 4 proof over hand-written model + differential correspondence check"),
+            "technique": c.get("technique", "Lean 4 proof over hand-written model + differential correspondence check"
+                               + (" + source-to-Lean translator (Python AST -> Generated/*.lean, proved equal to the model) for scalar decision functions"
+                                  if "def regen" in (V / "checks" / "props" / f"{pid.lower()}.py").read_text() else "")),
         })
     else:
         m["not_applicable"].append({"property_id": pid, "reason": table["pending"].get(pid, "check under construction in this revision (model, theorems and correspondence not yet validated on the clean tree)")})
